@@ -1,4 +1,5 @@
 import CobraModel.Lemmas.Formulations
+import Mathlib.Tactic.NormNum
 /-!
 # C19 — blocked-reaction and consistency analyses agree with the true flux ranges
 
@@ -47,6 +48,24 @@ theorem carries_flux_not_blocked (p : LP) (r : Nat) (x : List Rat) (hx : p.feasi
 open exchanges is blocked with the original bounds -/
 theorem widen_box (lo hi v : Rat) (h1 : lo ≤ v) (h2 : v ≤ hi) : min lo (-1000) ≤ v ∧ v ≤ max hi 1000 :=
   ⟨le_trans (min_le_left _ _) h1, le_trans h2 (le_max_left _ _)⟩
+
+/-- the term `forward + reverse ≥ z` that `_find_sparse_mode` writes for a reaction is satisfiable at zero net flux: a positive `z` does not
+make the reaction carry flux.  This is why `fastcc` can drop reversible reactions that are not blocked (known finding
+`fastcc-drops-unblocked-reversible`): whether the solver's vertex has `forward = reverse` is the solver's choice -/
+theorem sparse_mode_term_leaks : ∃ f r z : Rat, 0 ≤ f ∧ 0 ≤ r ∧ 0 < z ∧ z ≤ f + r ∧ f - r = 0 :=
+  ⟨1, 1, 1, by norm_num, by norm_num, by norm_num, by norm_num, by norm_num⟩
+
+/-- the term of the published LP-7, `v ≥ z` on the net flux (and `−v ≥ z` after the sign flip), does force flux -/
+theorem net_flux_term_forces (f r z : Rat) (hz : 0 < z) (h : z ≤ f - r ∨ z ≤ -(f - r)) : f - r ≠ 0 := by
+  intro e
+  rcases h with h | h <;> rw [e] at h <;> linarith
+
+/-- for an irreversible reaction (one of the two variables is fixed at zero by `update_variable_bounds`) the two terms coincide, so what
+`fastcc` decides about irreversible reactions in its first pass is right -/
+theorem sparse_mode_term_irreversible (f r z : Rat) (hf : 0 ≤ f) (hr : 0 ≤ r) (hirr : f = 0 ∨ r = 0) (hz : 0 < z) (h : z ≤ f + r) :
+    f - r ≠ 0 := by
+  intro e
+  rcases hirr with h0 | h0 <;> rw [h0] at e h <;> linarith
 
 def demo : LP := { n := 2, vb := [⟨some 0, some 5⟩, ⟨some 0, some 0⟩], rows := [([1, -1], ⟨some 0, some 0⟩)], obj := [0, 0] }
 example : (demo.withObj (unit 2 0)).checkOpt [0, 0] [1] = true := by decide +kernel
